@@ -254,6 +254,14 @@ def check_bigint(case):
     exact('EVEN({X})', sg * (ax + ax % 2), 'the even integer at or beyond')
     exact('ODD({X})', sg * (ax + 1 - ax % 2), 'the odd integer at or beyond')
     exact('SIGN({X})', sg, 'the sign')
+    # the same number 1000 binary places up: an integer that no double holds at all (2^1052 and beyond) is an integer still
+    h = x * 2 ** 1000
+    envh = Env(vars={'v_h': h, 'v_b': b})
+    qh = abs(h) // abs(b)
+    for f, want in (('SIGN(v_h)', sg), ('INT(v_h)', h), ('EVEN(v_h)', h), ('ODD(v_h)', sg * (abs(h) + 1)), ('QUOTIENT(v_h,v_b)', qh if (h > 0) == (b > 0) else -qh), ('MOD(v_h,v_b)', h % b)):
+        r = number_result(f, envh)
+        if isinstance(r, bool) or not isinstance(r, int) or r != want:
+            raise Violation('%s with v_h = %d * 2^1000, v_b = %d gives %s, not the exact integer' % (f, x, b, ('%r' % r)[:60]), ('%r' % r)[:60], None)
     q = ax // abs(b)
     exact('QUOTIENT({X},{B})', q if (x > 0) == (b > 0) else -q, 'the truncated quotient')
     exact('MOD({X},{B})', x % b, 'the remainder with the sign of the divisor')
@@ -518,7 +526,7 @@ LAWS = [
     Law('big_integers', check_bigint, strategy=bigint_case(), quick=1000, thorough=60000, shards=(4, 16),
         nontrivial=lambda c: c['d'] < 0 or abs(c['s']) > 1,
         classes=lambda c: (('x<0' if c['x'] < 0 else 'x>0'), ('d<0' if c['d'] < 0 else 'd>=0')), required=('x<0', 'x>0', 'd<0', 'd>=0'),
-        rule='integers of magnitude 2^52..2^70 (which a double cannot hold) with digits -6..6, integer significances and divisors of either sign: ROUND within half a unit and an exact multiple, ROUNDUP, ROUNDDOWN, INT, EVEN, ODD, SIGN, QUOTIENT, MOD, CEILING and FLOOR '
+        rule='integers of magnitude 2^52..2^70 (which a double cannot hold; and each of them times 2^1000 for SIGN, INT, EVEN, ODD, QUOTIENT, MOD) with digits -6..6, integer significances and divisors of either sign: ROUND within half a unit and an exact multiple, ROUNDUP, ROUNDDOWN, INT, EVEN, ODD, SIGN, QUOTIENT, MOD, CEILING and FLOOR '
              'equal the exact integer the definition gives (a result that went through a double is off by up to 2^17 here)'),
     Law('fact', check_fact, enumerate=enum_fact, exhaustive=True, shards=(2, 2),
         rule='n = -6..170: FACT, FACTDOUBLE exact; negative -> error'),
